@@ -21,6 +21,8 @@ var c01Bool = []string{
 	"`null` | [@]", "`null` | {x: @}", "a.{x: b}", "a.[b]", "`false`", "`0`", "'a' == a", "a == `[1]`", "a[0][0]", "a[0].b[0]", "a.b.a.b",
 	"(a[*].b).a", "(a[?a].b).a", "(a[].b).a", "(a[1:].b).a", "(a.*.b).a", "(a[*].b).a[0]", "(a[*].b) | a", "(a[*].b)[0].a",
 	"a.*.b.*", "a.*.a.*.b", "a.*.b[0].*", "*.a.*", "a[*].a.*.b", "a[?a].a.*", "a[].a.*.b", "a.*.*.a", "a[*].a[*].b[0]", "a[?b].a[?a].b", "a[1:].a.b[0]", "a.*.a[?b].a", "[*].a.b.*",
+	// right-hand sides of a pipe / dot that are not null on a null current node
+	"a | b || `1`", "a | (b || 'x')", "a | !b", "a | b == `null`", "a | type(@)", "a | `1`", "a | not_null(b, `1`)", "a | [b || `1`]", "a.not_null(b, 'd')", "a | b && `1` || `2`", "a | {x: b || `0`}", "a[0] | b || `1`", "a.b | a || 'x'",
 	"a[*][*]", "*[*]", "a[][*]", "a[*].b.*", "a.*.b", "a[*].*", "a[].b[]", "a[*].b[]", "a[?a][?b]", "a[?a].b[0]", "a[1:].b[0]", "a[:1][0]", "a[:1].b.a", "a[*][0]", "a[*][0][0]", "*.a[0]", "*.*", "*.a.b",
 }
 
